@@ -242,7 +242,7 @@ def features(term, value, env, tags='EXPLICIT', ext_implied=False, codec='per', 
                 feats.add('additions>127')
             for m in all_members(t):
                 if m.name in v:
-                    walk(m.t, v[m.name], False)
+                    walk(m.t, v[m.name], in_of)     # (nothing below a list element gets the implied marker)
             return
         if isinstance(t, Cho):
             if not (isinstance(v, tuple) and len(v) == 2):
@@ -257,7 +257,7 @@ def features(term, value, env, tags='EXPLICIT', ext_implied=False, codec='per', 
                 if m.name == v[0]:
                     if [x.name for x in t.root].index(m.name) != i:
                         feats.add('choice-canonical-order')
-                    walk(m.t, v[1], False)
+                    walk(m.t, v[1], in_of)
             for i, m in enumerate(adds):
                 if m.name == v[0]:
                     if i >= 64 and aligned:
